@@ -640,6 +640,29 @@ Proof. intros n. apply value_impl_is_value. apply (guard_d3_when_fixed eq_refl).
 Theorem input_impl_full : forall n pa sv v prods, input_impl n pa sv v prods = input_spec n pa sv v prods.
 Proof. intros n. apply input_impl_is_spec. apply (guard_d3_when_fixed eq_refl). Qed.
 
+(* the switch-parameterised mechanism at the current switch value IS the model (by conversion) ... *)
+Lemma deriv_impl_gen_is_model : deriv_impl_gen fixed_D3 = deriv_impl.
+Proof. reflexivity. Qed.
+
+(* ... and with the switch OFF (the mechanism before fix D59: merge keyed by the source node only) Coq computes 17/8 on the
+   witness where the Spec gives 13/8: a real before-fix theorem, independent of the current value of fixed_D3 *)
+Lemma d3_before_fix_values :
+  wf d3_witness = true /\
+  oqc_eqb (deriv d3_witness d3_state (declared_env d3_witness) ("T", "top", "v")) (Some (mkq 13 8)) = true /\
+  oqc_eqb (deriv_impl_gen false d3_witness d3_state (declared_env d3_witness) ("T", "top", "v")) (Some (mkq 17 8)) = true /\
+  oqc_eqb (deriv_impl_gen true d3_witness d3_state (declared_env d3_witness) ("T", "top", "v")) (Some (mkq 13 8)) = true.
+Proof. vm_compute. repeat split; reflexivity. Qed.
+
+Lemma d3_before_fix : exists n st pa v, wf n = true /\ deriv_impl_gen false n st pa v <> deriv n st pa v.
+Proof.
+  exists d3_witness, d3_state, (declared_env d3_witness), ("T", "top", "v").
+  destruct d3_before_fix_values as (H1 & H2 & H3 & _). split; [exact H1|].
+  intro Heq. rewrite Heq in H3.
+  assert (Hn : oqc_eqb (deriv d3_witness d3_state (declared_env d3_witness) ("T", "top", "v")) (Some (mkq 17 8)) = false)
+    by (vm_compute; reflexivity).
+  congruence.
+Qed.
+
 (* a non-trivial guard-satisfying network: hierarchy depth 1, three nodes, a same-node producer of T/top/a, two parallel
    edges A -> T/top/a, a third edge from another node (two source nodes -> multi-source sum), T/top/b unconnected *)
 Definition nonvac_net : net := flatten (Circ [] [
